@@ -1,8 +1,113 @@
-import YtkModel.Props
+/-
+  C16 — properties: flat dotted keys and trees correspond exactly and deterministically.
+
+  Statements are about the definitions of `YtkModel/Props.lean` that the driver executes.
+  A flat map is an `AMap` (sorted, unique keys); `unflatten` / `fromProperties` visit the keys in
+  that (sorted) order, as the code does since the D21 fix; `UnflattenRel` / `FromPropertiesRel`
+  / `EncodeRel` allow any visiting order (Go map iteration).
+
+  Proved here: the encode → parse round trip (for every writing order), the determinism of the
+  executable model with its concrete D21 witness (the relational, pre-fix semantics has two
+  different results for `{a=1, a.b=2}`; the sorted one has exactly one), the small structural
+  facts.  NOT proved (kept as statements below, validated by the correspondence harness only):
+
+    unflatten_flatten       : Sorted kv → (∀ p ∈ kv, KeyOk p.1) → PrefixFree kv →
+                                flattenPlainMap (unflatten kv) = kv.map (fun p => (p.1, scalarOf p.2))
+    fromProperties_flatten  : Sorted kv → (∀ p ∈ kv, KeyOk p.1) → PrefixFree kv →
+                                flattenMap (fromProperties kv) = kv
+    unflatten_order_indep   : Sorted kv → PrefixFree kv → UnflattenRel kv out → out = unflatten kv
+    fromProperties_order_indep : likewise for FromPropertiesRel
+-/
+import YtkProofs.Props
 
 namespace Ytk.C16
 open Ytk.Props
 
-theorem nonvacuous_placeholder : unflatten [("a", strVal "1")] = [("a", strVal "1")] := by decide
+/-- A flat map written as properties (`k=v` lines, in ANY order of the entries) and read back by
+    the reference line parser yields the same pairs, for keys without `=` / newline and values
+    without newline (in particular for the safe alphabet). -/
+theorem encode_parse_list (l : List (String × Scalar)) (h : ∀ p ∈ l, LineSafe p) :
+    parseSimple (encodeList l) = l.map (fun p => (p.1, p.2.text)) :=
+  parseSimple_encodeList l h
+
+/-- … for the deterministic encoder … -/
+theorem encode_parse (kv : AMap Scalar) (h : ∀ p ∈ kv, LineSafe p) :
+    parseSimple (encoderFn kv) = kv.map (fun p => (p.1, p.2.text)) :=
+  parseSimple_encodeList kv h
+
+/-- … and for every order in which Go's map iteration may write the entries: the parsed pairs
+    are a permutation of the map's entries. -/
+theorem encode_parse_rel (kv : AMap Scalar) (out : String) (h : ∀ p ∈ kv, LineSafe p)
+    (hr : EncodeRel kv out) : (parseSimple out).Perm (kv.map (fun p => (p.1, p.2.text))) := by
+  obtain ⟨l, hl, rfl⟩ := hr
+  rw [parseSimple_encodeList l (fun p hp => h p (hl.mem_iff.mp hp))]
+  exact hl.map _
+
+/-- DomEncoderFn on a container whose children are all leaves writes what EncoderFn writes for
+    the corresponding flat map; a non-leaf child is the failed type assertion. -/
+theorem domEncoder_leaves (l : List (String × Scalar)) :
+    domEncoderFn (l.map fun p => (p.1, Node.leaf p.2)) = .ok (encodeList l) := by
+  have : leavesOf (l.map fun p => (p.1, Node.leaf p.2)) = some l := by
+    induction l with
+    | nil => rfl
+    | cons p rest ih => simp [leavesOf, ih]
+  simp [domEncoderFn, this]
+
+/-! ## determinism, and the D21 witness -/
+
+def exConflict : AMap Val := [("a", strVal "1"), ("a.b", strVal "2")]
+
+/-- Before the D21 fix (keys visited in map-iteration order) the result for conflicting keys
+    depended on the order: two derivations of the relational semantics with different results. -/
+theorem unflatten_conflict_counterexample :
+    ∃ o₁ o₂, UnflattenRel exConflict o₁ ∧ UnflattenRel exConflict o₂ ∧ o₁ ≠ o₂ := by
+  refine ⟨unflattenList [("a", strVal "1"), ("a.b", strVal "2")],
+          unflattenList [("a.b", strVal "2"), ("a", strVal "1")],
+          ⟨_, List.Perm.refl _, rfl⟩, ⟨_, List.Perm.swap .., rfl⟩, by decide⟩
+
+/-- The code at HEAD visits the keys sorted: one result, here `{a: {b: 2}}` (the later, longer
+    key replaces the scalar by a map). -/
+theorem unflatten_conflict_sorted :
+    unflatten exConflict = [("a", .obj [("b", strVal "2")])] := by decide
+
+theorem fromProperties_conflict_counterexample :
+    ∃ o₁ o₂, FromPropertiesRel [("a", ⟨"string", "1"⟩), ("a.b", ⟨"string", "2"⟩)] o₁ ∧
+      FromPropertiesRel [("a", ⟨"string", "1"⟩), ("a.b", ⟨"string", "2"⟩)] o₂ ∧ o₁ ≠ o₂ := by
+  refine ⟨fromPropertiesList [("a", ⟨"string", "1"⟩), ("a.b", ⟨"string", "2"⟩)],
+          fromPropertiesList [("a.b", ⟨"string", "2"⟩), ("a", ⟨"string", "1"⟩)],
+          ⟨_, List.Perm.refl _, rfl⟩, ⟨_, List.Perm.swap .., rfl⟩, by decide⟩
+
+/-- The executable model is one of the relational results (the sorted order is an order). -/
+theorem unflatten_is_rel (kv : AMap Val) : UnflattenRel kv (unflatten kv) :=
+  ⟨kv, List.Perm.refl _, rfl⟩
+
+theorem fromProperties_is_rel (kv : AMap Scalar) : FromPropertiesRel kv (fromProperties kv) :=
+  ⟨kv, List.Perm.refl _, rfl⟩
+
+/-- Decoding is a function of the text: the same text gives the same document (the model of
+    FromReader ∘ DecoderFn has no hidden order parameter once the keys are sorted). -/
+theorem decode_deterministic (load : String → List (String × String)) (t₁ t₂ : String) (h : t₁ = t₂) :
+    fromReader load t₁ = fromReader load t₂ := by rw [h]
+
+/-! ## non-vacuity: exactness on a concrete prefix-free map -/
+
+def exKv : AMap Val :=
+  [("a.b", strVal "1"), ("a.c.d", strVal "x"), ("k1", strVal ""), ("x-y.z_9", strVal "true")]
+def exKvS : AMap Scalar :=
+  [("a.b", ⟨"string", "1"⟩), ("a.c.d", ⟨"string", "x"⟩), ("k1", ⟨"string", ""⟩), ("x-y.z_9", ⟨"string", "true"⟩)]
+
+theorem nonvacuous_unflatten_flatten : flattenPlainMap (unflatten exKv) = exKvS := by decide +kernel
+
+theorem nonvacuous_fromProperties_flatten : flattenMap (fromProperties exKvS) = exKvS := by decide +kernel
+
+theorem nonvacuous_fromMap_unflatten : fromMap (unflatten exKv) = fromProperties exKvS := by decide +kernel
+
+theorem nonvacuous_encode_parse :
+    parseSimple (encoderFn exKvS) = [("a.b", "1"), ("a.c.d", "x"), ("k1", ""), ("x-y.z_9", "true")] := by
+  decide
+
+theorem nonvacuous_order_indep :
+    unflattenList exKv.reverse = unflatten exKv ∧ fromPropertiesList exKvS.reverse = fromProperties exKvS := by
+  decide +kernel
 
 end Ytk.C16
